@@ -53,6 +53,7 @@ class CSA:
         self.symtab_bool = {}
         self.err_dirty = {}
         self.symtab_reset = {}
+        self.symtab_pure = set()        # `&self` queries of the symbol table returning a number (e.g. how many globals exist)
         self.symtab_resolve = set()     # name -> ('ctxlen', op, n) evaluators for SymbolTable bool methods
         self.err_states = []      # states at error exits (for C17)
         self.unmodelled = []
@@ -999,6 +1000,8 @@ class CSA:
         m = self.m
         V = lambda v: [(s, en, 'v', v)]
         if meth == 'define':
+            # a definition outlives the statement that made it: a failed compilation has to take it back (R17.2/R17.3)
+            s.dirty.add('definitions')
             sid = self.fresh_sym()
             s.facts[('symname', sid)] = a[0]
             s.facts[('symhow', sid)] = 'define'
@@ -1029,7 +1032,10 @@ class CSA:
             # back to the bare global context: only meaningful at the top level of a compilation (error recovery)
             if s.in_function is not False or s.frames:
                 s.viol('R09.1', 'self.symbols.%s() (drops every open scope/context) is called inside a construct' % meth)
-            what = self.symtab_reset[meth]
+            what = set(self.symtab_reset[meth])
+            if 'definitions' in what and not (a and a[0][0] == 'symmark'):
+                # the names are cut back to a length: it has to be the one observed before the failed compilation began
+                what.discard('definitions')
             s.dirty -= set(what)
             if 'scopes' in what:
                 s.scopes = 0
@@ -1051,6 +1057,8 @@ class CSA:
             s2 = s.clone()
             s2.assume['in_function'] = False
             return [(s1, en, 'v', ('bool', q(True))), (s2, en, 'v', ('bool', q(False)))]
+        if meth in self.symtab_pure:
+            return V(('symmark', meth))
         raise Undecided('CSA: self.symbols.%s() is not a modelled symbol-table operation' % meth)
 
     def call_self(self, meth, args, st, env, e):
